@@ -284,10 +284,13 @@ impl Visitor<Diagnostic> for RuleGraphReferenceableElements {
     ) -> Result<Self::Value, Diagnostic> {
         let this = self.declarations.add_node(&node.type_name.name);
 
-        if let ArraySpecificationKind::Type(parent) = &node.spec {
-            let depends_on = self.declarations.add_node(&parent.name);
-            self.declarations.graph.add_edge(depends_on, this, ());
+        // The array depends on either the array type it renames or on the type of its elements
+        let parent = match &node.spec {
+            ArraySpecificationKind::Type(parent) => parent,
+            ArraySpecificationKind::Subranges(subranges) => &subranges.type_name,
         };
+        let depends_on = self.declarations.add_node(&parent.name);
+        self.declarations.graph.add_edge(depends_on, this, ());
 
         node.recurse_visit(self)
     }
